@@ -1090,7 +1090,7 @@ fn in_child(op: &str, doc: &str, want: &str, site: &str) -> Outcome {
             Outcome {
                 observed: format!("ABORT(signal {}: {})", s.signal().unwrap_or(0), why),
                 expected: want,
-                note: format!("unbounded recursion in {}", site),
+                note: format!("recursion exhausted the stack in {}", site),
             }
         }
     }
